@@ -745,7 +745,16 @@ class GridMachineBase(Machine):
         if any(b.name in self.grid.block for b in other.blocklist):
             return False
         left = copy.deepcopy(self.grid)
-        res = self.call(lambda: left + other, 'grid + grid')
+        if (ch[1] // 4) % 3 == 0 and left.blocklist and other.rocktypelist:
+            # the first operand also holds an unconnected block under a name the second operand
+            # uses: the sum must hold that name once, as the second operand's block
+            nm = left.blocklist[(ch[1] // 12) % len(left.blocklist)].name
+            other.add_block(self.tg.t2block(nm, 7.0, other.rocktypelist[0]))
+            res = self.call(lambda: other + left, 'grid + grid (shared isolated block name)')
+            other.delete_block(nm)
+            self.ctx.probes['add_grid_shared_name'] += 1
+        else:
+            res = self.call(lambda: left + other, 'grid + grid')
         om = extract(other)
         self.model.b.update(om.b)
         self.model.c.update(om.c)
